@@ -763,6 +763,50 @@ def sample_icu_laws(ctx):
                 bad.append(("H_keep", repr((pre, c, post)), l))
     return len(cases_a), len(cases_k), bad
 
+def sample_icu_laws2(ctx):
+    """The two further ICU laws used as premises by C08 / C02 / C03_sequence: idna_ascii_lower (a successful
+    result is ASCII without upper-case letters) and idna_idem (a successful result is a fixed point)."""
+    import model as _model
+    r = random.Random("%d/icu-laws2" % ctx.seed)
+    mdl = _model.ensure_model()
+    POOL = [ord(c) for c in "abcxyzABCXYZ0123456789-._"] + [0xe9, 0xc9, 0xdf, 0x1e9e, 0x3c2, 0x3a3, 0x130, 0x131, 0x3002, 0xff0e, 0xff61, 0xad, 0x200c, 0x200d,
+            0xff10, 0xff21, 0xff41, 0x5d0, 0x627, 0x661, 0x4f8b, 0x3048, 0x1f4a9, 0x10400, 0x2163, 0x2488, 0xb9, 0x338, 0x300, 0x1e00, 0x212a, 0x212b, 0xfb00, 0x33a7]
+    LABELS = ["xn--bcher-kva", "xn--mnchen-3ya", "xn--", "xn--a", "XN--BCHER-KVA", "xn--80ak6aa92e", "xn--p1ai", "xn--zca", "xn--ls8h", "xn--1ch", "xn--a-ecp", "example", "COM", "a-b", "-a", "a-", "ab--c", "1", "0x10"]
+    ins = []
+    for d in gens.DOMAINS:
+        if "%" not in d and "[" not in d:
+            ins.append([ord(c) for c in d])
+    for _ in range(scale(ctx, 6000, 150000)):
+        k = r.random()
+        if k < 0.5:
+            ins.append([r.choice(POOL) for _ in range(r.randint(1, 10))])
+        elif k < 0.8:
+            labs = [r.choice(LABELS) if r.random() < 0.6 else "".join(chr(r.choice(POOL)) for _ in range(r.randint(1, 5))) for _ in range(r.randint(1, 4))]
+            ins.append([ord(c) for c in ".".join(labs)])
+        else:
+            ins.append([r.randrange(0x80, 0x3000) if r.random() < 0.7 else r.choice(POOL) for _ in range(r.randint(1, 6))])
+    ins = [i for i in ins if i]
+    def run(units_list):
+        lines = ["idna %s" % tok(u, "w") for u in units_list]
+        out = corr.run_cases(mdl, [Case(lines[i:i + 5000]) for i in range(0, len(lines), 5000)], 900)
+        return [l for o in out for l in (o or [])]
+    first = run(ins)
+    bad = []; results = []
+    for u, l in zip(ins, first):
+        if l.startswith("idna ok"):
+            h = l.split(" ")[2]
+            res = list(bytes.fromhex(h)) if h != "-" else []
+            if any(c >= 128 or 0x41 <= c <= 0x5a for c in res):
+                bad.append(("idna_ascii_lower", repr(u), l))
+            if res:
+                results.append(res)
+    second = run(results)
+    for rres, l in zip(results, second):
+        exp = "idna ok " + bytes(rres).hex().upper()
+        if l != exp:
+            bad.append(("idna_idem", repr(bytes(rres)), l))
+    return len(ins), len(results), bad
+
 STREAMS = {
     "parse": (stream_parse, oracle_state),
     "parse_exhaustive": (stream_parse_exhaustive, oracle_state),
@@ -805,7 +849,15 @@ def run(ctx, P):
         if cases:
             c = cases[len(cases) // 2]
             samples.append({"stream": name, "history": [corr.pretty(l) for l in c.lines[:6]]})
-    if ctx.pid == "C07":
+    if ctx.pid in ("C08", "C02", "C03", "C05"):
+        n1, n2, bad = sample_icu_laws2(ctx)
+        res["coverage"]["icu_law_samples_2"] = {"idna_ascii_lower": n1, "idna_idem": n2, "counterexamples": [list(b) for b in bad[:5]],
+                                                "note": "idna_ascii_lower and idna_idem are premises of the C08 / C02 / C03_sequence theorems; they are tested here against ICU 72.1, not proved"}
+        for law, inp, got in bad[:3]:
+            rp = vlib.write_replay(ctx.pid, "icu_law_%s" % law, {"kind": "assumed-ICU-law-fails", "law": law, "input": inp, "icu_answer": got,
+                                   "meaning": "a premise of the theorems does not hold of the installed ICU; the theorems no longer speak about this library build"})
+            res["violations"].append((rp, "ICU law %s fails on %s" % (law, inp[:60]), False))
+    if ctx.pid in ("C07", "C01", "C03", "C09"):
         na, nk, bad = sample_icu_laws(ctx)
         res["coverage"]["icu_law_samples"] = {"H_ascii": na, "H_keep": nk, "counterexamples": [list(b) for b in bad[:5]],
                                               "note": "the two ICU laws are premises of the C07 theorems; they are tested here against ICU 72.1, not proved"}
